@@ -37,6 +37,23 @@ CLAIMED['C03'] = {
     'note': KERNEL + 'IdManager modelled by hand and tied by behaviour; the clause about estimates up to optimiser tolerance is partial (external optimiser).',
 }
 
+CLAIMED['C08'] = {
+    'technique': 'Rocq proof over definitions regenerated from source (tie A) + exact-arithmetic correspondence on synthetic and real estimation outcomes (tie B)',
+    'text': ('Theorems in Rocq over the reals, about Gallina definitions translated on every run from results.py and tools/likelihood_ratio.py '
+             '(calc_p_value; Beta.set_std_err / set_robust_std_err / set_bootstrap_std_err; is_bound_active; _calculate_test; the scalar block and the '
+             'standard-error loops of _calculate_stats; varCovar = -pinv(H); robust_varCovar = V.dot(B.dot(V)); the non-formatted rows of '
+             'compile_estimation_results; likelihood_ratio_test): LR = -2(L0-L), rho2 = 1-L/L0, rhobar2 = 1-(L-K)/L0, AIC = 2K-2L, BIC = -2L+K ln N; in each of '
+             'the classical, robust and bootstrap families se = sqrt(diagonal of that family\'s matrix), t = value/se, p = 2(1-Phi|t|) of that family\'s own t; '
+             'pairwise test = (b_i-b_j)/sqrt(v_ii+v_jj-2v_ij); p in [0,1] and decreasing in |t|; V symmetric and B PSD imply V.B.V symmetric PSD; -pinv(H) is '
+             'the Moore-Penrose inverse of -H whenever pinv satisfies the Penrose equations; compiled-table rows hold the quantity their label names; '
+             'LR-test statistic, df and roles. Stream stats runs bioResults on synthetic raw outcomes (K = 1..8; Hessian negative definite / singular / '
+             'indefinite / absent; PSD BHHH; with and without null likelihood, bounds, bootstrap) and on real estimations and checks EVERY reported number '
+             'against its defining formula in exact rational arithmetic.'),
+    'note': KERNEL + 'py2v and the specialised extractors in lib/props/C08.py; Section variables for numpy/scipy (fmax, Phi, pinv with the Penrose equations '
+            'as hypothesis, chi2_ppf); nan_to_num = identity on finite input; scipy.linalg.pinv/eigh/svd, np.cov, pandas exact-checked on samples, not '
+            'verified; HTML/LaTeX/F12 renderings are C14\'s.',
+}
+
 _NOT_YET = 'check not built yet in this session (framework under construction); no claim made'
 NOT_APPLICABLE = {p: _NOT_YET for p in
                   ['C01', 'C02', 'C03', 'C04', 'C05', 'C06', 'C07', 'C08', 'C09', 'C10', 'C11', 'C12', 'C13',
